@@ -360,6 +360,37 @@ def registry(R, ctx):
                      "payload type %s has %s visit_* function" % (inner[0], "a" if inner[0] in vt else "NO"))
 
 
+ALWAYS_EXEMPT = {
+    "<rules::shift_token_line::ShiftTokenLine as rules::FlawlessRule>::flawless_process": "a shift by 0 lines is skipped: no-op",
+}
+
+
+def always(R, ctx):
+    rid = "C07.always"
+    lib = ctx.lib
+    R.rule(rid, "every rule that walks the tree reaches its visitor traversal on every non-error path of its process function (MIR must-pass): "
+                "no early return can skip the walk (e.g. a shortcut keyed on the *text* of the entry file, which says nothing about bundled modules)")
+    from .. import mir
+    n = 0
+    for f in lib.fn_list:
+        if not (f["path"].endswith("::flawless_process") or f["path"].endswith("as rules::Rule>::process")) or not f.get("mir"):
+            continue
+        cfg = mir.Cfg(lib, f)
+        dr = [i for i, t in cfg.calls() if t.get("fname") == "visit_block"]
+        if not dr:
+            continue
+        n += 1
+        if f["path"] in ALWAYS_EXEMPT:
+            R.ob(rid, "exempt|" + f["path"].split("::")[-3 if "as rules" in f["path"] else -1], True, ctx.where(f), ALWAYS_EXEMPT[f["path"]], nontrivial=False)
+            continue
+        succ = cfg.without_error_edges()
+        reach = cfg.reachable_from(0, avoid=set(dr), edges=succ)
+        bad = [r for r in cfg.returns() if r in reach]
+        name = f["path"].split(" as ")[0].split("::")[-1]
+        R.ob(rid, name, not bad, ctx.where(f), "a return is reachable without any traversal: occurrences are left in place on that path" if bad else "every path walks the tree (%d driver call(s))" % len(dr))
+    R.require(rid, "floor", n >= 30, "", "%d rules with a traversal (floor 30)" % n)
+
+
 def run(R, ctx):
     R.explanation = (
         "Structural induction over the AST type graph: visitor child-coverage for all four visitors, callback-before-descent "
@@ -376,3 +407,4 @@ def run(R, ctx):
     slots(R, ctx)
     pair(R, ctx)
     registry(R, ctx)
+    always(R, ctx)
